@@ -119,9 +119,9 @@ def check_gr_arm(run, pkg, name, dtype, ctype):
         for e in it.events:
             if e.kind == "assign" and e.data["name"] == "condition":
                 cond_now = e.data["value"]
-        ok = cond_now is not None and cond_now[0] == "call" and cond_now[1] == ".astype" and cond_now[2][0] == COND
+        ok = tri_lazy(lambda: (True if (cond_now is not None) else None), lambda: (True if (cond_now[0] == "call") else None), lambda: (True if (cond_now[1] == ".astype") else None), lambda: eqv(cond_now[2][0], COND))
         run.ob("R-DISPATCH", fq, "bool:as-int", ok, "a boolean selection is turned into 0/1 weights", show(cond_now)[:60] if cond_now else "not converted",
-               witness=None if ok else "bool * bool weights", loc=fi.loc())
+               witness=None if ok else "bool * bool weights", loc=fi.loc(), sound=True)
         if not ok:
             cond_now = COND
     # ---- loop and histograms
@@ -136,9 +136,9 @@ def check_gr_arm(run, pkg, name, dtype, ctype):
         raise AnalysisError(f"{fq}[{name}]: accumulations are not in one particle loop")
     Lp = it.loops[e_ga.loops[0]]
     ivar = Lp.target
-    okp = Lp.iter in (("call", "builtins.range", (("bin", "-", NP_, C(1)),), ()), ("call", "builtins.range", (NP_,), ()))
+    okp = eqv(Lp.iter, ("call", "builtins.range", (("bin", "-", NP_, C(1)),), ()), ("call", "builtins.range", (NP_,), ()))
     run.ob("R-LOOPDOM", fq, f"{name}:centres", okp, "centre index i runs over range(N-1) (with j > i: every unordered pair once)", show(Lp.iter)[:70],
-           witness=None if okp else f"i in {show(Lp.iter)[:50]}", loc=fi.loc(Lp.node))
+           witness=None if okp else f"i in {show(Lp.iter)[:50]}", loc=fi.loc(Lp.node), sound=True)
     maxbin = ("call", "builtins.int", (("bin", "/", ("bin", "/", LMIN, C(2.0)), ("sym", "rdelta")),), ())
     info = {}
     for col, ev in (("gr", e_gr), ("gA", e_ga)):
@@ -155,14 +155,13 @@ def check_gr_arm(run, pkg, name, dtype, ctype):
             gb = tr.tr(hi["bins"]) if hi["bins"] is not None else None
             okb = gb is not None and S.decide_equal(gb, S.PyInt(sLmin / (2 * sdel)))[0] is True
             rg = hi["range"]
-            okr = rg is not None and rg[0] == "tuple" and len(rg[1]) == 2 and rg[1][0] in (C(0), C(0.0)) and \
-                S.decide_equal(tr.tr(rg[1][1]), S.PyInt(sLmin / (2 * sdel)) * sdel)[0] is True
+            okr = tri_lazy(lambda: (True if (rg is not None) else None), lambda: (True if (rg[0] == "tuple") else None), lambda: (True if (len(rg[1]) == 2) else None), lambda: eqv(rg[1][0], C(0), C(0.0)), lambda: (True if (S.decide_equal(tr.tr(rg[1][1]), S.PyInt(sLmin / (2 * sdel)) * sdel)[0] is True) else None))
         except Exception:  # noqa
             okb = okr = None
         run.ob("R-ALG", fq, f"{name}:{col}:bins", okb, "bins = int(L_min / (2 rdelta))", show(hi["bins"])[:70] if hi["bins"] else "default",
                witness=None if okb else "bin count differs from the row count", loc=loc)
         run.ob("R-ALG", fq, f"{name}:{col}:range", okr, "range = (0, maxbin * rdelta)", show(hi["range"])[:80] if hi["range"] else "default",
-               witness=None if okr else "bin edges differ from k * rdelta", loc=loc)
+               witness=None if okr else "bin edges differ from k * rdelta", loc=loc, sound=True)
         if hi["mask"] is not None:
             run.ob("R-ALG", fq, f"{name}:{col}:unmasked", False, "every pair enters the histogram", show(hi["mask"])[:60], witness="pairs filtered before weighting", loc=loc)
         inner = is_rowwise_norm(hi["data"]) if hi["data"] is not None else None
@@ -174,14 +173,14 @@ def check_gr_arm(run, pkg, name, dtype, ctype):
                    show(hi["data"])[:100] if hi["data"] else "?", witness="distances across the periodic boundary are not imaged" if plain else None, loc=loc)
             continue
         kinds = {index_kind(pdiff["left"], ivar), index_kind(pdiff["right"], ivar)}
-        ok_al = pdiff["snap"] == SNAP and kinds == {"i", "after_i"}
+        ok_al = tri_lazy(lambda: eqv(pdiff["snap"], SNAP), lambda: (True if (kinds == {"i", "after_i"}) else None))
         run.ob("R-ALIGN", fq, f"{name}:{col}:pairs", ok_al, "distances are between centre i and the particles j > i", f"[{show(pdiff['left'])}] - [{show(pdiff['right'])}]",
-               witness=None if ok_al else "pair set is not {(i, j): j > i}", loc=loc)
-        okh = pa[1] == ("attr", SNAP, "hmatrix")
-        run.ob("R-PBC", fq, f"{name}:{col}:cell", okh, "minimum image uses the snapshot's cell", show(pa[1])[:50], witness=None if okh else "another cell", loc=loc)
-        okm = pa[2] == ("sym", "ppp")
+               witness=None if ok_al else "pair set is not {(i, j): j > i}", loc=loc, sound=True)
+        okh = eqv(pa[1], ("attr", SNAP, "hmatrix"))
+        run.ob("R-PBC", fq, f"{name}:{col}:cell", okh, "minimum image uses the snapshot's cell", show(pa[1])[:50], witness=None if okh else "another cell", loc=loc, sound=True)
+        okm = eqv(pa[2], ("sym", "ppp"))
         run.ob("R-PBC", fq, f"{name}:{col}:mask", okm, "the caller's periodicity mask is forwarded", show(pa[2])[:40] if pa[2] else "default",
-               witness=None if okm else "mask not forwarded", loc=loc)
+               witness=None if okm else "mask not forwarded", loc=loc, sound=True)
     if "gr" in info:
         okw = info["gr"]["weights"] is None
         run.ob("R-ALG", fq, f"{name}:gr:unweighted", okw, "the reference g(r) counts pairs without weights", show(info["gr"]["weights"])[:60] if not okw else "no weights",
@@ -268,10 +267,10 @@ def check_weight(run, it, fq, name, w, cond_now, ivar, ev):
         f = fills[0]
         Lj = it.loops[f.loops[1]]
         j = Lj.target
-        oklen = w == ("call", "numpy.zeros", (("bin", "-", NP_, ("bin", "+", ivar, C(1))),), ())
-        okdom = Lj.iter == ("call", "builtins.range", (("sub", ("attr", w, "shape"), C(0)),), ())
+        oklen = eqv(w, ("call", "numpy.zeros", (("bin", "-", NP_, ("bin", "+", ivar, C(1))),), ()))
+        okdom = eqv(Lj.iter, ("call", "builtins.range", (("sub", ("attr", w, "shape"), C(0)),), ()))
         run.ob("R-ALIGN", fq, "tensor:length", oklen and okdom, "one weight per particle j > i, all filled", f"{show(w)[:60]} ; {show(Lj.iter)[:60]}",
-               witness=None if oklen and okdom else "weights missing / surplus for the distance slice [i+1:]", loc=loc_of(it, f))
+               witness=None if oklen and okdom else "weights missing / surplus for the distance slice [i+1:]", loc=loc_of(it, f), sound=True)
         v = f.data["value"]
         A = B = None
         if v[0] == "call" and v[1] == "numpy.trace" and v[2]:
@@ -455,10 +454,10 @@ def check_sq(run, pkg):
         mu, X = split_acc(SUM)
         L = it.loops[mu[1]]
         ivar = L.target
-        okinit = mu[3] in (C(0), C(0.0), C(0j))
+        okinit = eqv(mu[3], C(0), C(0.0), C(0j))
         okdom = eqv(L.iter, ("call", "builtins.range", (Nsel,), ()))
         run.ob("R-LOOPDOM", fq, f"{kind}:particles", tri(okdom, True if okinit else None), "the sum starts at 0 and runs over all " + ("selected " if kind == "bool" else "") + "particles", show(L.iter)[:60],
-               witness="particles skipped / counted twice", loc=fi.loc(L.node))
+               witness="particles skipped / counted twice", loc=fi.loc(L.node), sound=True)
         # X = phase [* weight]
         phase, weight = X, None
         if X[0] == "bin" and X[1] == "*":
@@ -503,9 +502,9 @@ def check_sq(run, pkg):
             wi = weight
             if wi is not None and wi[0] == "sub" and wi[2] == ("tuple", (("mod", "numpy.newaxis"), FULL)):
                 wi = wi[1]
-            okw = wi == ("sub", COND, ivar)
+            okw = eqv(wi, ("sub", COND, ivar))
             run.ob("R-ALIGN", fq, f"{kind}:weight", okw, "the quantity multiplying the phase of particle i is A_i", show(weight)[:60] if weight else "none",
-                   witness=None if okw else "A of another particle (or no A) multiplies exp(-i q.r_i)", loc=loc)
+                   witness=None if okw else "A of another particle (or no A) multiplies exp(-i q.r_i)", loc=loc, sound=True)
         # ---- FFT column(s) hold F
         if kind != "vector" and "FFT" in st:
             okf = st["FFT"].data["value"] == E
